@@ -57,6 +57,15 @@ func (e *Engine) execCall(fr *Frame, st *State, instr ssa.Instruction, call *ssa
 			// a method promoted from an embedded interface: (io.Writer).Write
 			key = call.Method.FullName()
 		}
+		if _, ok := e.contracts.Funcs[key]; !ok {
+			// an interface declared in a package under contract: pkgpath::(Iface).Method
+			if n, isNamed := types.Unalias(call.Value.Type()).(*types.Named); isNamed && n.Obj().Pkg() != nil {
+				k2 := n.Obj().Pkg().Path() + "::(" + n.Obj().Name() + ")." + call.Method.Name()
+				if _, ok := e.contracts.Funcs[k2]; ok {
+					key = k2
+				}
+			}
+		}
 		recv.Typ = call.Value.Type()
 		all := append([]Val{recv}, args...)
 		if fc, ok := e.contracts.Funcs[key]; ok {
@@ -369,6 +378,11 @@ func (e *Engine) callModular(fr *Frame, st *State, fc *FuncContract, name string
 	if fc.Delegate != "" {
 		return e.callDelegate(fr, st, fc, env, resT, pos)
 	}
+	for _, p := range fc.PanicsIf {
+		// the call returned, so the documented panic condition did not hold
+		e.ctx.Assume(implies(st.pc, not(e.evalBool(p.Expr, env))))
+		e.note("documented panic of " + shortName(name) + " is accepted behaviour at its call sites")
+	}
 	for i, r := range fc.Requires {
 		g := e.evalBool(r.Expr, env)
 		e.oblige(st, "pre/"+shortName(name), g, pos, fmt.Sprintf("precondition %d of %s: %s", i+1, shortName(name), r.Src), fc.Tags)
@@ -397,6 +411,13 @@ func (e *Engine) callModular(fr *Frame, st *State, fc *FuncContract, name string
 		st.top = nt
 		e.record(func(w *WriteSet) { w.alloc = true })
 	}
+	if len(fc.Fresh) > 0 && fc.Pure {
+		// the callee allocates its result: advance the frontier before the result is named
+		nt := e.ctx.Declare("top", "Int")
+		e.ctx.Assume(sx(">", nt, st.top))
+		st.top = nt
+		e.record(func(w *WriteSet) { w.alloc = true })
+	}
 	res := e.freshResult(st, "r$"+sanitize(shortName(name)), resT)
 	// bind results
 	post := e.calleeEnv(fr, st, pre, fc, sig, invoke, args)
@@ -416,12 +437,6 @@ func (e *Engine) callModular(fr *Frame, st *State, fc *FuncContract, name string
 			post.names[rn[0]] = res
 		}
 		post.names["\\result"] = res
-	}
-	if len(fc.Fresh) > 0 && fc.Pure {
-		nt := e.ctx.Declare("top", "Int")
-		e.ctx.Assume(sx(">=", nt, st.top))
-		st.top = nt
-		e.record(func(w *WriteSet) { w.alloc = true })
 	}
 	for _, f := range fc.Fresh {
 		v, ok := post.names[f]
